@@ -333,8 +333,29 @@ pub fn replay(case: &J) -> CaseResult {
     }
 }
 
+/// An entry under the empty-string key (its pointer segment is empty: `/a//b`), holding a map with
+/// the name of a sibling key, so that a dropped or doubled `/` lands on another value.
+fn add_empty_key(u: &mut Choices, v: &mut V, depth: usize) -> bool {
+    if let V::Map(m) = v {
+        if !m.is_empty() && !m.iter().any(|(k, _)| k.is_empty()) && (depth > 0 || u.chance(1, 2)) && u.chance(1, 2) {
+            let (k, val) = m[u.below(m.len())].clone();
+            let inner = V::Map(vec![(k, [V::Int(77), V::s("under the empty key"), val][u.below(3)].clone()), ("port".into(), V::Int(9))]);
+            let at = u.below(m.len() + 1);
+            m.insert(at, (String::new(), inner));
+            return true;
+        }
+        for (_, x) in m.iter_mut() {
+            if add_empty_key(u, x, depth + 1) {
+                return true;
+            }
+        }
+    }
+    false
+}
+
 fn random_case(u: &mut Choices, sz: Size) -> CaseResult {
-    let doc = gen_cfn_doc(u, &sz);
+    let mut doc = gen_cfn_doc(u, &sz);
+    let empty_key = u.chance(1, 5) && add_empty_key(u, &mut doc, 0);
     let mut file = gen_wide_file(u, &doc, sz, true);
     // no parameterised rules (their clauses are reported relative to the call): calls are replaced
     // by a plain clause, the rest is kept
@@ -407,6 +428,7 @@ fn random_case(u: &mut Choices, sz: Size) -> CaseResult {
                 format!("unresolved-on-path:{}", c.unresolved.min(3)),
                 format!("positions:{}", c.positions.min(3)),
                 format!("via:{}", if via_file { "file" } else { "payload" }),
+                format!("empty-string-key:{}", empty_key),
             ],
             evals,
             sample: Some(json!({"data": w.text, "rules": rules, "pointers_checked": c.resolved, "unresolved_checked": c.unresolved, "positions_checked": c.positions})),
@@ -422,7 +444,7 @@ fn random_case(u: &mut Choices, sz: Size) -> CaseResult {
 
 pub fn run(tier: Tier, seed: u64) -> i32 {
     let spec = EvidenceSpec {
-        rule: "Random wide programs without parameterised calls, a unique custom message on every clause, on CloudFormation-shaped documents written as block YAML / pretty JSON / flow YAML / compact JSON with random layout (indentation, blank lines, comments, `---`); evaluated by `validate --structured -o json` through --payload and through a data file. For every {path,value} pair of the report (from, to, traversed_to, unary value) with a non-empty path: the slash pointer resolves in the harness's copy of the document to exactly that value. For every unresolved check whose clause (found through its message) has a key-headed query: the reached point is an instance of a prefix of the query (under some context prefix of the pointer) and the next queried segment does not exist under it. For every `Path=<p>[L:l,C:c]` in a message whose p addresses a scalar: (l,c) equals the position at which the writer put that scalar's first character (0-based, columns in characters). Non-trivial: >=1 resolved and >=1 unresolved check, a pointer of depth >=2, multi-line text; distinct by hash of data text and rules.".into(),
+        rule: "Random wide programs without parameterised calls, a unique custom message on every clause, on CloudFormation-shaped documents written as block YAML / pretty JSON / flow YAML / compact JSON with random layout (indentation, blank lines, comments, `---`), a fifth of them with an entry under the empty-string key; evaluated by `validate --structured -o json` through --payload and through a data file. For every {path,value} pair of the report (from, to, traversed_to, unary value) with a non-empty path: the slash pointer resolves in the harness's copy of the document to exactly that value. For every unresolved check whose clause (found through its message) has a key-headed query: the reached point is an instance of a prefix of the query (under some context prefix of the pointer) and the next queried segment does not exist under it. For every `Path=<p>[L:l,C:c]` in a message whose p addresses a scalar: (l,c) equals the position at which the writer put that scalar's first character (0-based, columns in characters). Non-trivial: >=1 resolved and >=1 unresolved check, a pointer of depth >=2, multi-line text; distinct by hash of data text and rules.".into(),
         assumptions: vec![
             "only scalar positions are judged (the statement's wording)".into(),
             "`remaining_query` text is not judged; the reached point is (DESIGN 5/C10)".into(),
